@@ -6,8 +6,8 @@
     [same_messages], [graph_equiv], …) is in [Model/GossipSpec.v]. *)
 From stdpp Require Import gmap.
 From Coq Require Import ZArith String.
-Require Import LdkV.Gen.GossipConsts LdkV.Model.Gossip LdkV.Model.GossipSpec LdkV.Proofs.C17.
-Require LdkV.Proofs.C17Step LdkV.Proofs.C17Removal LdkV.Proofs.C17Auth LdkV.Proofs.C17Order.
+Require Import LdkV.Gen.GossipConsts LdkV.Model.Gossip LdkV.Model.GossipSpec LdkV.Model.GossipAsync LdkV.Proofs.C17.
+Require LdkV.Proofs.C17Step LdkV.Proofs.C17Removal LdkV.Proofs.C17Auth LdkV.Proofs.C17Order LdkV.Proofs.C17Async.
 Open Scope Z_scope.
 
 (** Whatever operations are applied (gossip from any entry point, valid or not, failures, pruning,
@@ -150,6 +150,76 @@ Theorem C17_order_independent : ∀ cf L1 L2,
   graph_equiv (run cf g_init L1) (run cf g_init L2).
 Proof. exact C17Order.order_independent. Qed.
 
+(** ** The asynchronous UTXO-lookup path and rapid gossip sync
+    [Model/GossipAsync.v] puts the pending-checks buffer of routing/utxo.rs ([PAnnAsync]: an
+    announcement whose lookup is in flight; channel_updates and node_announcements for it are held,
+    the newest per direction / node; [PResolve]; [PPoll]: [check_resolved_futures], replaying the
+    held messages through the entry point they came in by, signed or unsigned) and the processing
+    of rapid-gossip-sync snapshots ([PRgs]) on top of the synchronous model. *)
+
+(** The graph is only ever changed by [step]s of the synchronous model: what a session of the
+    layered model reaches is the run of the ops it pushed through, each of which is a delivered
+    message with the signature verdict it was delivered with (or an unsigned one synthesised from a
+    delivered snapshot); so the graph is well formed and authentic with respect to them. *)
+Theorem C17_async_refines : ∀ cf pops,
+  let g := ps_g (prun cf p_init pops) in
+  let ops := pemitted cf p_init pops in
+  g = run cf g_init ops ∧ Forall (delivered pops) ops ∧ wf g ∧ authentic cf ops g.
+Proof. exact C17Async.async_refines. Qed.
+
+(** [C17_authentic] extended to held-and-replayed messages: after ANY session (lookups resolved in
+    any order with any result, messages before / while / after a lookup is pending, snapshots),
+    every channel, direction and node announcement in the graph is a delivered message, and if it
+    was delivered through a signed entry point its signatures verify under the announced keys —
+    in particular a held SIGNED channel_update is stored only if its signature verifies under the
+    node of its direction of the channel as resolved. *)
+Theorem C17_authentic_async : ∀ cf pops,
+  let g := ps_g (prun cf p_init pops) in
+  (∀ scid c, g_chans g !! scid = Some c →
+     ((∃ sg a u, delivered pops (OChanAnn false sg a u 0) ∧ ca_scid a = scid ∧
+         c_one c = ca_n1 a ∧ c_two c = ca_n2 a ∧ c_features c = ca_features a ∧
+         utxo_value u = inr (c_cap c) ∧ ca_chain a = cfg_chain cf ∧
+         (∀ s, sg = Some s → ann_authentic cf a s)) ∨
+      (∃ ts, delivered pops (OPartialAnn scid (c_cap c) ts (c_features c) (c_one c) (c_two c)))) ∧
+     ∀ d ui, chan_dir c d = Some ui →
+       ∃ sg m, delivered pops (OChanUpd false sg m 0 false) ∧ cu_scid m = scid ∧
+         dir_is_two_to_one m = d ∧ ui = upd_info_of m (is_some_b sg) ∧ cu_chain m = cfg_chain cf ∧
+         (∀ s, sg = Some s → s = Some (dir_node c d) ∧ pk_ok cf (dir_node c d) = true)) ∧
+  (∀ nid n a, g_nodes g !! nid = Some n → n_ann n = Some a →
+     ∃ sg m, delivered pops (ONodeAnn false sg m) ∧ nm_nid m = nid ∧ na_ts a = nm_ts m ∧
+       na_content a = nm_content m ∧ (∀ b, sg = Some b → b = true ∧ pk_ok cf nid = true)).
+Proof. exact C17Async.async_authentic. Qed.
+
+(** Rapid gossip sync: the update synthesised for an INCREMENTAL entry is the stored directional
+    info with exactly the flagged fields replaced (timestamp: the snapshot's, backdated a week) … *)
+Theorem C17_rgs_incremental_preserves_unmentioned : ∀ g sn u old,
+  rgs_incremental u = true →
+  g_dir g (ru_scid u) (Z.testbit (ru_flags u) 0) = Some old →
+  ∃ m, rgs_synth g sn u = Some m ∧
+    cu_scid m = ru_scid u ∧ dir_is_two_to_one m = Z.testbit (ru_flags u) 0 ∧
+    cu_ts m = backdated sn ∧
+    cu_cltv m = opt_or (ru_cltv u) (ui_cltv old) ∧
+    cu_hmin m = opt_or (ru_hmin u) (ui_hmin old) ∧
+    cu_hmax m = opt_or (ru_hmax u) (ui_hmax old) ∧
+    cu_base m = opt_or (ru_base u) (ui_base old) ∧
+    cu_prop m = opt_or (ru_prop u) (ui_prop old).
+Proof. exact C17Async.rgs_incremental_preserves_unmentioned. Qed.
+
+(** … and when the graph accepts it, that is what the direction holds afterwards. *)
+Theorem C17_rgs_incremental_effect : ∀ cf g sn u old m now v g',
+  rgs_incremental u = true →
+  g_dir g (ru_scid u) (Z.testbit (ru_flags u) 0) = Some old →
+  rgs_synth g sn u = Some m →
+  step cf g (OChanUpd false None m now false) = (GOk v, g') →
+  ∃ new, g_dir g' (ru_scid u) (Z.testbit (ru_flags u) 0) = Some new ∧
+    ui_ts new = backdated sn ∧
+    ui_cltv new = opt_or (ru_cltv u) (ui_cltv old) ∧
+    ui_hmin new = opt_or (ru_hmin u) (ui_hmin old) ∧
+    ui_hmax new = opt_or (ru_hmax u) (ui_hmax old) ∧
+    ui_base new = opt_or (ru_base u) (ui_base old) ∧
+    ui_prop new = opt_or (ru_prop u) (ui_prop old).
+Proof. exact C17Async.rgs_incremental_effect. Qed.
+
 (** ** Non-vacuity (the concrete lists and the proofs that they satisfy the hypotheses are in
     [Proofs/C17Examples.v]) *)
 Require Import LdkV.Proofs.C17Examples.
@@ -195,3 +265,31 @@ Module Ex.
     dump (prune g (1209600 + 1001)) = ([], [], [(42, 1209600 + 1001)], []).
   Proof. by vm_compute. Qed.
 End Ex.
+
+Require Import LdkV.Proofs.C17AsyncExamples.
+Module ExAsync.
+  Import Examples AsyncExamples.
+  (** held messages are replayed through the entry point they came in by: the channel_update for
+      direction one signed by a stranger does NOT make it into the graph when its channel's lookup
+      resolves, the authentic one for direction two and the node_announcement do, and the three
+      accepted messages (100, 104, 103) are queued for relay *)
+  Example held_replayed :
+    dump (ps_g (prun cf p_init held)) =
+      ([[42; 1; 3; 7; 5000; 100; 1001; 0; 1; 550; 1; 40; 1; 2000000; 10; 20; 103]],
+       [[3; 1; 70; 5; 104; 42]; [7; 0; 42]], [], []) ∧
+    (pstep cf (prun cf p_init (removelast held)) (PPoll 1001)).1.1 = PBroadcast [100; 104; 103].
+  Proof. by vm_compute. Qed.
+  (** nothing of a failed lookup reaches the graph *)
+  Example failed_lookup_leaves_nothing : dump (ps_g (prun cf p_init failed)) = ([], [], [], []).
+  Proof. by vm_compute. Qed.
+  (** the hypotheses of the incremental-update theorems hold on a reachable graph, and an entry
+      flagging only the fee base changes the fee base (10 -> 77) and the timestamp, nothing else *)
+  Example rgs_incremental_example :
+    let g := ps_g (prun cf p_init held) in
+    rgs_incremental inc = true ∧
+    g_dir g (ru_scid inc) (Z.testbit (ru_flags inc) 0) = Some (upd_info_of (u2 550 103) true) ∧
+    dump (ps_g (prun cf p_init (held ++ [PRgs sn1 None 1002]))) =
+      ([[42; 1; 3; 7; 5000; 100; 1001; 0; 1; 1395200; 1; 40; 1; 2000000; 77; 20; -1]],
+       [[3; 1; 70; 5; 104; 42]; [7; 0; 42]], [], []).
+  Proof. by vm_compute. Qed.
+End ExAsync.
